@@ -120,6 +120,30 @@ def apply_op(emd, A, B, op, workdir, tag):
         for k in keys:
             d = d[k]
         gb = d
+    elif kind == 'miss':
+        # a path that does not exist: every way of addressing it fails the way nested indexing fails (KeyError; False for
+        # `in`; the default for .get) - whether anything was left behind is decided by the projections after the operation
+        path = '/'.join(keys)
+        sentinel = object()
+
+        def nested(delete):
+            d = B
+            for k in keys[:-1]:
+                d = d[k]
+            if delete:
+                del d[keys[-1]]
+            return d[keys[-1]]
+        for what, fn in (('slash read', lambda: A[path]), ('slash del', lambda: A.__delitem__(path)),
+                         ('nested read', lambda: nested(False)), ('nested del', lambda: nested(True))):
+            try:
+                fn()
+            except KeyError:
+                continue
+            raise AssertionError('%s of the missing path %s did not raise KeyError' % (what, path))
+        if path in A:
+            raise AssertionError('%r in cfg is True for a missing path' % path)
+        if A.get(path, sentinel) is not sentinel:
+            raise AssertionError('cfg.get(%r, default) did not return the default for a missing path' % path)
     elif kind == 'save':
         for i, c in enumerate((A, B)):
             if p[0] == 'text':
@@ -263,7 +287,7 @@ def run():
     D = ctx.pick(2, 3)
     cfg = os.path.join(ctx.work, 'sc.cfg')
     vals = '{"Int1", "NoneV", "List12", "Tuple12", "Arr12", "TupTup", "Arr1", "Arr2D"}'
-    props = ['DeleteExact', 'RoundTripFaithful', 'RoundTripIdempotent']
+    props = ['DeleteExact', 'RoundTripFaithful', 'RoundTripIdempotent', 'ReadsChangeNothing']
     core.write_cfg(cfg, spec='Spec', invariants=['LeavesNeedParents', 'WitnessUntouched'], properties=props, constants={'MaxOps': D, 'Values': vals})
     res = core.run_tlc(ctx, 'SiftConfig', cfg, name='SiftConfig depth %d' % D)
     core.require_ok(res, 'Leg A SiftConfig')
